@@ -1,4 +1,4 @@
-import ITree.Lemmas.ArenaDeleteTop
+import ITree.Lemmas.ArenaStale
 import ITree.Lemmas.Expire
 /-!
 # Lazy expiry on the arena (`expire_root` / `expire_left` / `expire_right`) against `expireFocus`
@@ -165,10 +165,10 @@ theorem ViaOK.of_head {via : Arena.Via} {k k' : Ctx (Ent V)} (hv : ViaOK via k)
 /-- **`expire_root` / `expire_left` / `expire_right`** on the arena are `expireFocus` -/
 theorem expireVia_rep (time : Int) : ∀ (m : Nat) (a : Arena V) (k : Ctx (Ent V)) (t : T (Ent V)) (pool : Pool)
     (tr : List (Ev V)) (via : Arena.Via) {k' : Ctx (Ent V)} {t' : T (Ent V)} {pool' : Pool} {tr' : List (Ev V)},
-    a.nodes.size ≤ EMPTY → RepSt a ⟨plug k t, pool⟩ → WF (⟨plug k t, pool⟩ : St V) → ViaOK via k →
+    a.nodes.size ≤ EMPTY → RepStG a ⟨plug k t, pool⟩ → WF (⟨plug k t, pool⟩ : St V) → ViaOK via k →
     expireFocus time m k t pool tr = some (k', t', pool', tr') →
     ∀ fuel, m ≤ fuel →
-    ∃ a', Arena.expireVia time fuel a via = some (t'.rootIdx, a') ∧ RepSt a' ⟨plug k' t', pool'⟩ ∧
+    ∃ a', Arena.expireVia time fuel a via = some (t'.rootIdx, a') ∧ RepStG a' ⟨plug k' t', pool'⟩ ∧
       WF (⟨plug k' t', pool'⟩ : St V) ∧ ViaOK via k' ∧ a'.nodes.size = a.nodes.size ∧ a'.dflt = a.dflt := by
   intro m
   induction m with
@@ -176,7 +176,7 @@ theorem expireVia_rep (time : Int) : ∀ (m : Nat) (a : Arena V) (k : Ctx (Ent V
   | succ m ih =>
     intro a k t pool tr via k' t' pool' tr' hsize hrep hw hv h fuel hfuel
     obtain ⟨fuel, rfl⟩ : ∃ f0, fuel = f0 + 1 := ⟨fuel - 1, by omega⟩
-    obtain ⟨i, p, hc, hr⟩ := Rep.unplug k t hrep.tree
+    obtain ⟨i, p, hc, hr⟩ := Rep.unplug k t hrep.rep.tree
     have hread := readVia_rep hc hv
     cases t with
     | leaf =>
@@ -209,7 +209,7 @@ theorem expireVia_rep (time : Int) : ∀ (m : Nat) (a : Arena V) (k : Ctx (Ent V
         obtain ⟨rfl, rfl, rfl⟩ := hd'
         have hdel : (⟨plug k (T.node c l i e r), pool⟩ : St V).deleteAt k (T.node c l i e r) =
             some ⟨plug k1 t1, pool.free freed⟩ := by simp [St.deleteAt, hd]
-        obtain ⟨a1, h1, hrep1, hs1, hd1⟩ := deleteAt_rep hrep hw.slots hsize rfl hc hr hdel
+        obtain ⟨a1, h1, hrep1, hs1, hd1⟩ := deleteAt_repG hrep hw hsize rfl hc hr hdel
         obtain ⟨a', h2, hrep2, hw2, hv2, hs2, hd2⟩ := ih a1 k1 t1 _ _ via (by rw [hs1]; exact hsize) hrep1 hw1
           (hv.of_head (deleteFocus_head hd)) h fuel (by omega)
         refine ⟨a', ?_, hrep2, hw2, hv2, by rw [hs2, hs1], by rw [hd2, hd1]⟩
@@ -237,10 +237,10 @@ their lazy removals on the way -/
 theorem kSearch_rep (mode : Mode) (time : Int) (f : Int → Ordering) : ∀ (m : Nat) (a : Arena V) (k : Ctx (Ent V))
     (t : T (Ent V)) (pool : Pool) (res : Option V) (tr : List (Ev V)) {T' : T (Ent V)} {pool' : Pool}
     {r : Option V} {tr' : List (Ev V)},
-    a.nodes.size ≤ EMPTY → RepSt a ⟨plug k t, pool⟩ → WF (⟨plug k t, pool⟩ : St V) →
+    a.nodes.size ≤ EMPTY → RepStG a ⟨plug k t, pool⟩ → WF (⟨plug k t, pool⟩ : St V) →
     search mode time f m k t pool res tr = some (T', pool', r, tr') →
     ∀ fuel, m ≤ fuel →
-    ∃ a', Arena.kSearch mode time f fuel a t.rootIdx res = some (a', r) ∧ RepSt a' ⟨T', pool'⟩ ∧
+    ∃ a', Arena.kSearch mode time f fuel a t.rootIdx res = some (a', r) ∧ RepStG a' ⟨T', pool'⟩ ∧
       WF (⟨T', pool'⟩ : St V) ∧ a'.nodes.size = a.nodes.size ∧ a'.dflt = a.dflt := by
   intro m
   induction m with
@@ -254,12 +254,12 @@ theorem kSearch_rep (mode : Mode) (time : Int) (f : Int → Ordering) : ∀ (m :
       obtain ⟨rfl, rfl, rfl, _⟩ := h
       exact ⟨a, by simp [Arena.kSearch, T.rootIdx], hrep, hw, rfl, rfl⟩
     | node c l s e r0 =>
-      obtain ⟨i, p, hc, hr⟩ := Rep.unplug k _ hrep.tree
+      obtain ⟨i, p, hc, hr⟩ := Rep.unplug k _ hrep.rep.tree
       have hr' := hr
       obtain ⟨rfl, n, hn, _, _, hne, _, _⟩ := hr'
       have hlt := node_lt hn
       have hie : (i == EMPTY) = false := by simp; omega
-      have hsz : (plug k (T.node c l i e r0)).size ≤ a.nodes.size := hrep.size_le hw.slots
+      have hsz : (plug k (T.node c l i e r0)).size ≤ a.nodes.size := hrep.rep.size_le hw.slots
       have hsz2 := size_plug' k (T.node c l i e r0)
       simp only [T.size_node] at hsz2
       -- the two continuations
@@ -268,7 +268,7 @@ theorem kSearch_rep (mode : Mode) (time : Int) (f : Int → Ordering) : ∀ (m :
             | none => none
             | some (k', t', p', tr') => search mode time f m k' t' p' res' tr') = some (T', pool', r, tr') →
           ∃ a', ((Arena.expireVia time (a.nodes.size + 1) a (.left i)).bind fun x =>
-              Arena.kSearch mode time f fuel x.2 x.1 res') = some (a', r) ∧ RepSt a' ⟨T', pool'⟩ ∧
+              Arena.kSearch mode time f fuel x.2 x.1 res') = some (a', r) ∧ RepStG a' ⟨T', pool'⟩ ∧
             WF (⟨T', pool'⟩ : St V) ∧ a'.nodes.size = a.nodes.size ∧ a'.dflt = a.dflt := by
         intro res' hx
         cases he : expireFocus time (l.size + 1) (⟨c, i, e, r0, .L⟩ :: k) l pool
@@ -288,7 +288,7 @@ theorem kSearch_rep (mode : Mode) (time : Int) (f : Int → Ordering) : ∀ (m :
             | none => none
             | some (k', t', p', tr') => search mode time f m k' t' p' res' tr') = some (T', pool', r, tr') →
           ∃ a', ((Arena.expireVia time (a.nodes.size + 1) a (.right i)).bind fun x =>
-              Arena.kSearch mode time f fuel x.2 x.1 res') = some (a', r) ∧ RepSt a' ⟨T', pool'⟩ ∧
+              Arena.kSearch mode time f fuel x.2 x.1 res') = some (a', r) ∧ RepStG a' ⟨T', pool'⟩ ∧
             WF (⟨T', pool'⟩ : St V) ∧ a'.nodes.size = a.nodes.size ∧ a'.dflt = a.dflt := by
         intro res' hx
         cases he : expireFocus time (r0.size + 1) (⟨c, i, e, l, .R⟩ :: k) r0 pool
@@ -327,10 +327,10 @@ namespace ITree
 variable {V : Type}
 
 /-- **`first_less` / `first_less_or_equal(_by)` / `get_value`** of the expiring tree -/
-theorem kQuery_rep {a : Arena V} {st st' : St V} (h : RepSt a st) (hw : WF st) (hsize : a.nodes.size ≤ EMPTY)
+theorem kQuery_rep {a : Arena V} {st st' : St V} (h : RepStG a st) (hw : WF st) (hsize : a.nodes.size ≤ EMPTY)
     (mode : Mode) (time : Int) (f : Int → Ordering) {r : Option V} {tr : List (Ev V)}
     (hm : st.kQuery mode time f = some (st', r, tr)) :
-    ∃ a', a.kQuery mode time f = some (a', r) ∧ RepSt a' st' ∧ WF st' ∧ a'.nodes.size = a.nodes.size := by
+    ∃ a', a.kQuery mode time f = some (a', r) ∧ RepStG a' st' ∧ WF st' ∧ a'.nodes.size = a.nodes.size := by
   simp only [St.kQuery] at hm
   cases he : expireFocus time (st.tree.size + 1) [] st.tree st.pool [] with
   | none => simp [he] at hm
@@ -343,10 +343,10 @@ theorem kQuery_rep {a : Arena V} {st st' : St V} (h : RepSt a st) (hw : WF st) (
       obtain ⟨t', p', r', tr'⟩ := y
       simp only [hs, Option.some.injEq, Prod.mk.injEq] at hm
       obtain ⟨rfl, rfl, rfl⟩ := hm
-      have hsz := h.size_le hw.slots
+      have hsz := h.rep.size_le hw.slots
       obtain ⟨a1, h1, hrep1, hw1, _, hs1, _⟩ := expireVia_rep time _ a [] st.tree st.pool [] .root hsize
         (by simpa using h) (by simpa using hw) rfl he (a.nodes.size + 1) (by omega)
-      have hsz1 : (plug k t).size ≤ a1.nodes.size := hrep1.size_le hw1.slots
+      have hsz1 : (plug k t).size ≤ a1.nodes.size := hrep1.rep.size_le hw1.slots
       have := size_plug' k t
       obtain ⟨a2, h2, hrep2, hw2, hs2, _⟩ := kSearch_rep mode time f _ a1 k t p none tr1 (by rw [hs1]; exact hsize)
         hrep1 hw1 hs (a1.nodes.size + 1) (by omega)
@@ -406,10 +406,10 @@ variable {V : Type}
 theorem kInsertLoop_rep (time : Int) (e : Ent V) : ∀ (m : Nat) (a : Arena V) (k : Ctx (Ent V)) (t : T (Ent V))
     (pool : Pool) (tr : List (Ev V)) {T' : T (Ent V)} {pool' : Pool} {tr' : List (Ev V)},
     a.nodes.size + max a.cap (2 * a.nodes.size + 4) ≤ EMPTY → t ≠ .leaf →
-    RepSt a ⟨plug k t, pool⟩ → WF (⟨plug k t, pool⟩ : St V) →
+    RepStG a ⟨plug k t, pool⟩ → WF (⟨plug k t, pool⟩ : St V) →
     insDescend time e m k t pool tr = some (T', pool', tr') →
     ∀ fuel, m ≤ fuel →
-    ∃ a', Arena.kInsertLoop time e fuel a t.rootIdx = some a' ∧ RepSt a' ⟨T', pool'⟩ := by
+    ∃ a', Arena.kInsertLoop time e fuel a t.rootIdx = some a' ∧ RepStG a' ⟨T', pool'⟩ := by
   intro m
   induction m with
   | zero => intro a k t pool tr T' pool' tr' _ _ _ _ h; simp [insDescend] at h
@@ -420,10 +420,10 @@ theorem kInsertLoop_rep (time : Int) (e : Ent V) : ∀ (m : Nat) (a : Arena V) (
     | leaf => exact absurd rfl hnl
     | node c l s x r0 =>
       have hsize : a.nodes.size ≤ EMPTY := by omega
-      obtain ⟨i, p, hc, hr⟩ := Rep.unplug k _ hrep.tree
+      obtain ⟨i, p, hc, hr⟩ := Rep.unplug k _ hrep.rep.tree
       have hr' := hr
       obtain ⟨rfl, n, hn, _, _, hne, _, _⟩ := hr'
-      have hsz : (plug k (T.node c l i x r0)).size ≤ a.nodes.size := hrep.size_le hw.slots
+      have hsz : (plug k (T.node c l i x r0)).size ≤ a.nodes.size := hrep.rep.size_le hw.slots
       have hsz2 := size_plug' k (T.node c l i x r0)
       simp only [T.size_node] at hsz2
       -- one step: the chosen side, purged, then either the attach point or the next node
@@ -436,7 +436,7 @@ theorem kInsertLoop_rep (time : Int) (e : Ent V) : ∀ (m : Nat) (a : Arena V) (
             | some (k', t', p', tr') => insDescend time e m k' t' p' tr') = some (T', pool', tr') →
           ∃ a', ((Arena.expireVia time (a.nodes.size + 1) a via).bind fun y =>
               if y.1 == EMPTY then y.2.insertAs e i (side == Side.L) else Arena.kInsertLoop time e fuel y.2 y.1) = some a' ∧
-            RepSt a' ⟨T', pool'⟩ := by
+            RepStG a' ⟨T', pool'⟩ := by
         intro side sub f0 via hf0 hplug hv hsub hvia hx
         cases he : expireFocus time (sub.size + 1) (f0 :: k) sub pool (⟨.cmp, x, k, T.node c l i x r0, pool⟩ :: tr) with
         | none => simp [he] at hx
@@ -447,8 +447,8 @@ theorem kInsertLoop_rep (time : Int) (e : Ent V) : ∀ (m : Nat) (a : Arena V) (
           obtain ⟨a1, h1, hrep1, hw1, hv1, hs1, hd1⟩ := expireVia_rep time _ a _ sub pool _ via hsize
             (by rw [hplug]; exact hrep) hw0 hv he (a.nodes.size + 1) (by omega)
           obtain ⟨hcap, hbl⟩ := expireFocus_cap time _ _ _ _ _ hw0 he
-          have hp0 : pool = poolOf a := hrep.pool
-          have hp1 : p1 = poolOf a1 := hrep1.pool
+          have hp0 : pool = poolOf a := hrep.rep.pool
+          have hp1 : p1 = poolOf a1 := hrep1.rep.pool
           have hcap1 : a1.cap ≤ max a.cap (2 * a.nodes.size + 4) := by
             have : p1.cap = a1.cap := by rw [hp1]; rfl
             have h2 : pool.cap = a.cap := by rw [hp0]; rfl
@@ -468,26 +468,54 @@ theorem kInsertLoop_rep (time : Int) (e : Ent V) : ∀ (m : Nat) (a : Arena V) (
             cases k1 with
             | nil => cases side <;> simp [ViaOK] at hv1 <;> simp_all
             | cons f' K' =>
-              obtain ⟨j, q, hcj, hrj⟩ := Rep.unplug (f' :: K') .leaf hrep1.tree
+              obtain ⟨j, q, hcj, hrj⟩ := Rep.unplug (f' :: K') .leaf hrep1.rep.tree
               have hj : j = EMPTY := hrj
               subst hj
               have hq : q = f'.s := hcj.1
               subst hq
-              obtain ⟨hcap', hfree, hnd, hlt, hfresh⟩ := SlotsOK.arena hrep1 hw1.slots
+              obtain ⟨hcap', hfree, hnd, hlt, hfresh⟩ := SlotsOK.arena hrep1.rep hw1.slots
               have hperm := slots_plug (f' :: K') (.leaf : T (Ent V))
               simp only [T.slots_leaf, List.nil_append] at hperm
               have hside' : f'.side = side ∧ f'.s = i := by
                 simp only [ViaOK] at hv1
                 cases hs' : f'.side <;> cases side <;> simp_all
-              obtain ⟨a', h2, h3, h4, _, _⟩ := insertAs_rep (f := f') (k := K') e (by rw [hs1]; omega) hcap' hfree hcj
+              obtain ⟨a', h2, h3, h4, h5, _, h7⟩ := insertAs_rep (f := f') (k := K') e (by rw [hs1]; omega) hcap' hfree hcj
                 (hperm.nodup_iff.mp hnd) (fun hm => hfresh (hperm.mem_iff.mpr hm))
               rw [hside'.2, hside'.1] at h2
-              refine ⟨a', h2, ⟨?_, ?_⟩⟩
-              · rw [hp1]; exact h3
-              · rw [hp1, h4]
+              have hrep' : RepSt a' ⟨linkNew (f' :: K') p1.alloc.1 e, p1.alloc.2⟩ := by
+                refine ⟨?_, ?_⟩
+                · rw [hp1]; exact h3
+                · rw [hp1, h4]
+              refine ⟨a', h2, ?_⟩
+              obtain ⟨h0, h0s⟩ := SlotsOK.zero hrep1.rep hw1.slots
+              obtain ⟨al1, al2, _, _, _, al6⟩ := Pool.alloc_spec hw1.slots
+              have hpl := linkNew_slots_perm (f' :: K') p1.alloc.1 e
+              have hgrow : a1.nodes.size ≤ a'.nodes.size := by
+                have e1 : (poolOf a').bufLen = a'.nodes.size := rfl
+                have e2 : (poolOf a1).bufLen = a1.nodes.size := rfl
+                rw [h4, ← hp1] at e1
+                rw [← hp1] at e2
+                rw [← e1, ← e2]; exact al6
+              refine RepStG.of_grow hrep1 hrep' hgrow h5 h0 (fun s hs => hpl.mem_iff.mpr (List.mem_cons_of_mem _ hs)) ?_ ?_
+              · intro j hj
+                refine h7 j ?_
+                rw [← hp1]
+                intro hm
+                apply hj
+                refine hpl.mem_iff.mpr ?_
+                simp only [List.mem_cons] at hm ⊢
+                rcases hm with hm | hm
+                · exact Or.inl hm
+                · exact Or.inr (hperm.mem_iff.mpr hm)
+              · intro hm
+                have := hpl.mem_iff.mp hm
+                simp only [List.mem_cons] at this
+                rcases this with h' | h'
+                · exact al2 h'.symm
+                · exact h0s h'
           | node c1 l1 s1 x1 r1 =>
             have hs1lt : s1 < a1.nodes.size := by
-              obtain ⟨j, q, _, hrj⟩ := Rep.unplug k1 _ hrep1.tree
+              obtain ⟨j, q, _, hrj⟩ := Rep.unplug k1 _ hrep1.rep.tree
               exact node_lt hrj.2.choose_spec.1
             have hne1 : (s1 == EMPTY) = false := by simp; omega
             simp only [T.rootIdx, hne1, Bool.false_eq_true, if_false]
@@ -509,10 +537,10 @@ namespace ITree
 variable {V : Type}
 
 /-- **`insert(key, val, time)` of the expiring tree** -/
-theorem kInsert_rep {a : Arena V} {st st' : St V} (h : RepSt a st) (hw : WF st)
+theorem kInsert_rep {a : Arena V} {st st' : St V} (h : RepStG a st) (hw : WF st)
     (hB : a.nodes.size + max a.cap (2 * a.nodes.size + 4) ≤ EMPTY) (e : Ent V) (time : Int) {tr : List (Ev V)}
     (hm : st.kInsert e time = some (st', tr)) :
-    ∃ a', a.kInsert e time = some a' ∧ RepSt a' st' := by
+    ∃ a', a.kInsert e time = some a' ∧ RepStG a' st' := by
   have hsize : a.nodes.size ≤ EMPTY := by omega
   simp only [St.kInsert] at hm
   cases he : expireFocus time (st.tree.size + 1) [] st.tree st.pool [⟨.exp, e, [], st.tree, st.pool⟩] with
@@ -526,13 +554,13 @@ theorem kInsert_rep {a : Arena V} {st st' : St V} (h : RepSt a st) (hw : WF st)
       obtain ⟨t', p', tr'⟩ := y
       simp only [hi, Option.some.injEq, Prod.mk.injEq] at hm
       obtain ⟨rfl, _⟩ := hm
-      have hsz := h.size_le hw.slots
+      have hsz := h.rep.size_le hw.slots
       have hw0 : WF (⟨plug [] st.tree, st.pool⟩ : St V) := by simpa using hw
       obtain ⟨a1, h1, hrep1, hw1, hv1, hs1, _⟩ := expireVia_rep time _ a [] st.tree st.pool _ .root hsize
         (by simpa using h) hw0 rfl he (a.nodes.size + 1) (by omega)
       obtain ⟨hcap, hbl⟩ := expireFocus_cap time _ _ _ _ _ hw0 he
-      have hp0 : st.pool = poolOf a := h.pool
-      have hp1 : p = poolOf a1 := hrep1.pool
+      have hp0 : st.pool = poolOf a := h.rep.pool
+      have hp1 : p = poolOf a1 := hrep1.rep.pool
       have hcap1 : a1.cap ≤ max a.cap (2 * a.nodes.size + 4) := by
         have : p.cap = a1.cap := by rw [hp1]; rfl
         have h2 : st.pool.cap = a.cap := by rw [hp0]; rfl
@@ -550,21 +578,21 @@ theorem kInsert_rep {a : Arena V} {st st' : St V} (h : RepSt a st) (hw : WF st)
         simp only [insDescend, T.size, Option.some.injEq, Prod.mk.injEq] at hi
         obtain ⟨rfl, rfl, _⟩ := hi
         have hroot : a1.root = EMPTY := by
-          have := hrep1.tree
+          have := hrep1.rep.tree
           simp only [plug_nil] at this
           exact this
-        obtain ⟨a', h2, h3, _, _⟩ := insert_rep e hrep1 hw1.slots (by rw [hs1]; omega)
+        obtain ⟨a', h2, h3, _, _⟩ := insert_repG e hrep1 hw1 (by rw [hs1]; omega)
         refine ⟨a', ?_, ?_⟩
         · simpa [Arena.insert, hroot] using h2
         · simpa [St.insert, descendIns] using h3
       | node c l s x r =>
         have hslt : s < a1.nodes.size := by
-          have := hrep1.tree
+          have := hrep1.rep.tree
           simp only [plug_nil] at this
           exact node_lt this.2.choose_spec.1
         have hne : (s == EMPTY) = false := by simp; omega
         simp only [T.rootIdx, hne, Bool.false_eq_true, if_false]
-        have hsz1 : (plug [] (T.node c l s x r)).size ≤ a1.nodes.size := hrep1.size_le hw1.slots
+        have hsz1 : (plug [] (T.node c l s x r)).size ≤ a1.nodes.size := hrep1.rep.size_le hw1.slots
         simp only [plug_nil] at hsz1
         exact kInsertLoop_rep time e _ a1 [] _ p tr1 (by rw [hs1]; omega) (by simp) hrep1 hw1 hi (a1.nodes.size + 1)
           (by omega)
